@@ -336,8 +336,10 @@ def run_case(a):
                     continue
                 if s != want:
                     ident = payload_ident.get(fm)
-                    if exp is None and ident and s == ("ref", ident):
-                        # cause class: an identifier the symbol table does not know is used as if it were a type name
+                    if exp is None and ident and s == ("ref", ident) and fm == "static-item":
+                        # cause class: an identifier that no parameter or pattern of the function binds (a static / const item) is
+                        # used as if it were a type name. Names the function binds itself were repaired by d6b2ed6: for them the
+                        # same symptom is a violation of its own
                         viol.append(("C12 payload-type unresolved-identifier-used-as-type-name",
                                      "event %r payload form `%s`: expected unknown, %s is the variable's own name %s" % (ev, fm, where, sh.show(s))))
                         break
